@@ -302,6 +302,37 @@ func main() {
 			rep.ClassN(local)
 			return true
 		})
+		// the hidden file is replaced the way editors and deploy scripts do it (a new file moved into place: same
+		// path, another inode) while the site keeps running: it stays hidden under every spelling
+		hp := filepath.Join(root, filepath.FromSlash(hidden))
+		if old, err := os.ReadFile(hp); err == nil {
+			tmp := hp + ".new"
+			os.WriteFile(tmp, old, 0o644)
+			os.Rename(tmp, hp)
+			for _, tgt := range []string{"/" + hidden, "//" + hidden, "/./" + hidden, "/" + strings.ToUpper(hidden[:1]) + hidden[1:], "/" + path.Dir(hidden) + "/", "/" + path.Dir(hidden) + "/?archive=zip"} {
+				raw := kit.Get("GET", v.prefix+tgt, "a.test:8080", "Accept-Encoding: gzip")
+				req, err := kit.Req(raw)
+				if err != nil {
+					continue
+				}
+				rec, pv, _ := kit.ServeReq(srv, req)
+				rep.Eval(1)
+				text := rec.Body.String()
+				if dec, err := kit.Gunzip(rec.Body.Bytes()); err == nil {
+					text = string(dec)
+				}
+				leaked := strings.Contains(text, tokens[hidden])
+				if members, ok := kit.Unarchive([]byte(text)); ok {
+					for _, c := range members {
+						leaked = leaked || strings.Contains(c, tokens[hidden])
+					}
+				}
+				if pv != nil || leaked {
+					rep.Violation("C02/hidden-file-content/after-the-file-was-replaced", fmt.Sprintf("GET %s returned the content of the hidden file after it had been replaced by a new file of the same name", tgt), c02case{Casketfile: cf, Request: raw, Status: rec.Status})
+				}
+			}
+			rep.Class("hidden-file-replaced")
+		}
 		l.Close()
 		rep.Sample(map[string]interface{}{"variant": v.name, "casketfile": cf, "example_targets": []string{"/dir/..%2f/Casketfile", "//dir", "/%2e%2e/outside/outside.txt?archive=zip"}})
 	}
